@@ -86,6 +86,7 @@ package kvql
 //
 //@ func (p *LimitPlan) Next(ctx *ExecuteCtx) (key []byte, value []byte, err error)
 //@   props C08 C13 C05
+//@   ensures[C13] norows: err != nil ==> isnil(key) && isnil(value)
 //@   requires limInv(p) && !failed
 //@   requires[C05] c5: wfCtx(ctx) && wfRefs()
 //@   ensures[C05] coherent: err == nil && !isnil(key) ==> coherent(ctx, val(key), val(value))
